@@ -4,22 +4,22 @@
    Every theorem quantifies over ALL decoders (enc, dec_all, dec_stream), detection functions
    (find_encoding = charsets.FindEncoding), Content-Type parsers and label tables; the only
    hypothesis is [decoder_ok]: x/text's streaming reader fed with the body in any pieces delivers
-   what Decoder.Bytes makes of the whole body.  [respond ... = (o, true)] reads: the caller, reading
+   what Decoder.Bytes makes of the whole body.  [respond ... = (o, EEOF)] reads: the caller, reading
    with buffers of the given sizes, reached io.EOF and received o in total. *)
 From ReqV Require Import Lib.Bytes Model.Charset Model.CharsetFind Proofs.CharsetProofs Proofs.CharsetTermination
-     Proofs.CharsetFindProofs Proofs.CharsetPinned Proofs.CharsetToyStream.
+     Proofs.CharsetFindProofs Proofs.CharsetPinned Proofs.CharsetToyStream Proofs.CharsetInterleave.
 
 (* for every body, every split into network reads, every sequence of caller buffer sizes and every
    hand-out schedule of the x/text reader: the delivered body is the original bytes or the
    transcoding of the WHOLE original body - nothing added, lost or replaced *)
 Theorem C15_two_results_only :
-  forall (enc : Type) (dec_all : enc -> bytes -> bytes) (dec_stream : enc -> list bytes -> bytes)
+  forall (enc : Type) (dec_all : enc -> bytes -> bytes) (dec_stream dec_partial : enc -> list bytes -> bytes)
          (find_encoding : bytes -> option enc) (parse_ct : bytes -> ct_parse)
          (lookup_charset : bytes -> option enc),
     decoder_ok dec_all dec_stream ->
-    forall disable sel resp_ae ct chunks eof_last takes sizes o,
-      respond dec_stream find_encoding parse_ct lookup_charset
-              disable sel resp_ae ct chunks eof_last takes sizes = (o, true) ->
+    forall disable sel resp_ce ct chunks eof_last fail takes sizes o,
+      respond dec_stream dec_partial find_encoding parse_ct lookup_charset
+              disable sel resp_ce ct chunks eof_last fail takes sizes = (o, EEOF) ->
       o = concat chunks \/ exists e, o = dec_all e (concat chunks).
 Proof. exact two_results_only. Qed.
 Print Assumptions C15_two_results_only.
@@ -27,49 +27,49 @@ Print Assumptions C15_two_results_only.
 (* ... and exactly which one: by the installed reader; for the sniffing reader by what FindEncoding
    says about the first non-empty read *)
 Theorem C15_respond_exact :
-  forall (enc : Type) (dec_all : enc -> bytes -> bytes) (dec_stream : enc -> list bytes -> bytes)
+  forall (enc : Type) (dec_all : enc -> bytes -> bytes) (dec_stream dec_partial : enc -> list bytes -> bytes)
          (find_encoding : bytes -> option enc) (parse_ct : bytes -> ct_parse)
          (lookup_charset : bytes -> option enc),
     decoder_ok dec_all dec_stream ->
-    forall disable sel resp_ae ct chunks eof_last takes sizes o,
-      respond dec_stream find_encoding parse_ct lookup_charset
-              disable sel resp_ae ct chunks eof_last takes sizes = (o, true) ->
-      o = match decide parse_ct lookup_charset disable sel resp_ae ct with
+    forall disable sel resp_ce ct chunks eof_last fail takes sizes o,
+      respond dec_stream dec_partial find_encoding parse_ct lookup_charset
+              disable sel resp_ce ct chunks eof_last fail takes sizes = (o, EEOF) ->
+      o = match decide parse_ct lookup_charset disable sel resp_ce ct with
           | IRaw => concat chunks
           | IHeader e => dec_all e (concat chunks)
-          | ISniff => result_of dec_all (sniffed find_encoding sizes (fresh_net chunks eof_last)) (concat chunks)
+          | ISniff => result_of dec_all (sniffed find_encoding sizes (fresh_net chunks eof_last fail)) (concat chunks)
           end.
 Proof. exact respond_exact. Qed.
 Print Assumptions C15_respond_exact.
 
 (* a supported non-UTF-8 charset in Content-Type is applied whatever the split and the caller sizes *)
 Theorem C15_header_charset_always_applied :
-  forall (enc : Type) (dec_all : enc -> bytes -> bytes) (dec_stream : enc -> list bytes -> bytes)
+  forall (enc : Type) (dec_all : enc -> bytes -> bytes) (dec_stream dec_partial : enc -> list bytes -> bytes)
          (find_encoding : bytes -> option enc) (parse_ct : bytes -> ct_parse)
          (lookup_charset : bytes -> option enc),
     decoder_ok dec_all dec_stream ->
-    forall disable sel resp_ae ct v e chunks eof_last takes sizes o,
-      should_decode disable sel resp_ae ct = true ->
+    forall disable sel resp_ce ct v e chunks eof_last fail takes sizes o,
+      should_decode disable sel resp_ce ct = true ->
       parse_ct ct = PCharset v ->
       is_utf8_label (to_lower v) = false ->
       lookup_charset (to_lower v) = Some e ->
-      respond dec_stream find_encoding parse_ct lookup_charset
-              disable sel resp_ae ct chunks eof_last takes sizes = (o, true) ->
+      respond dec_stream dec_partial find_encoding parse_ct lookup_charset
+              disable sel resp_ce ct chunks eof_last fail takes sizes = (o, EEOF) ->
       o = dec_all e (concat chunks).
 Proof. exact header_charset_always_applied. Qed.
 Print Assumptions C15_header_charset_always_applied.
 
 (* utf-8 or an unsupported label in Content-Type: original bytes (the body is not sniffed either) *)
 Theorem C15_header_utf8_or_unknown_left :
-  forall (enc : Type) (dec_all : enc -> bytes -> bytes) (dec_stream : enc -> list bytes -> bytes)
+  forall (enc : Type) (dec_all : enc -> bytes -> bytes) (dec_stream dec_partial : enc -> list bytes -> bytes)
          (find_encoding : bytes -> option enc) (parse_ct : bytes -> ct_parse)
          (lookup_charset : bytes -> option enc),
     decoder_ok dec_all dec_stream ->
-    forall disable sel resp_ae ct v chunks eof_last takes sizes o,
+    forall disable sel resp_ce ct v chunks eof_last fail takes sizes o,
       parse_ct ct = PCharset v ->
       is_utf8_label (to_lower v) = true \/ lookup_charset (to_lower v) = None ->
-      respond dec_stream find_encoding parse_ct lookup_charset
-              disable sel resp_ae ct chunks eof_last takes sizes = (o, true) ->
+      respond dec_stream dec_partial find_encoding parse_ct lookup_charset
+              disable sel resp_ce ct chunks eof_last fail takes sizes = (o, EEOF) ->
       o = concat chunks.
 Proof. exact header_utf8_or_unknown_left. Qed.
 Print Assumptions C15_header_utf8_or_unknown_left.
@@ -78,19 +78,19 @@ Print Assumptions C15_header_utf8_or_unknown_left.
    Content-Type, or whenever FindEncoding answers the same on the two first reads, the delivered
    bodies are identical *)
 Theorem C15_split_only_affects_detection :
-  forall (enc : Type) (dec_all : enc -> bytes -> bytes) (dec_stream : enc -> list bytes -> bytes)
+  forall (enc : Type) (dec_all : enc -> bytes -> bytes) (dec_stream dec_partial : enc -> list bytes -> bytes)
          (find_encoding : bytes -> option enc) (parse_ct : bytes -> ct_parse)
          (lookup_charset : bytes -> option enc),
     decoder_ok dec_all dec_stream ->
-    forall disable sel resp_ae ct chunks1 eof1 takes1 sizes1 o1 chunks2 eof2 takes2 sizes2 o2,
+    forall disable sel resp_ce ct chunks1 eof1 fail1 takes1 sizes1 o1 chunks2 eof2 fail2 takes2 sizes2 o2,
       concat chunks1 = concat chunks2 ->
-      respond dec_stream find_encoding parse_ct lookup_charset
-              disable sel resp_ae ct chunks1 eof1 takes1 sizes1 = (o1, true) ->
-      respond dec_stream find_encoding parse_ct lookup_charset
-              disable sel resp_ae ct chunks2 eof2 takes2 sizes2 = (o2, true) ->
-      (decide parse_ct lookup_charset disable sel resp_ae ct <> ISniff \/
-       sniffed find_encoding sizes1 (fresh_net chunks1 eof1) =
-       sniffed find_encoding sizes2 (fresh_net chunks2 eof2)) ->
+      respond dec_stream dec_partial find_encoding parse_ct lookup_charset
+              disable sel resp_ce ct chunks1 eof1 fail1 takes1 sizes1 = (o1, EEOF) ->
+      respond dec_stream dec_partial find_encoding parse_ct lookup_charset
+              disable sel resp_ce ct chunks2 eof2 fail2 takes2 sizes2 = (o2, EEOF) ->
+      (decide parse_ct lookup_charset disable sel resp_ce ct <> ISniff \/
+       sniffed find_encoding sizes1 (fresh_net chunks1 eof1 fail1) =
+       sniffed find_encoding sizes2 (fresh_net chunks2 eof2 fail2)) ->
       o1 = o2.
 Proof. exact split_only_affects_detection. Qed.
 Print Assumptions C15_split_only_affects_detection.
@@ -102,28 +102,46 @@ Theorem C15_detection_sees_a_prefix_of_the_body :
 Proof. exact first_read_prefix. Qed.
 Print Assumptions C15_detection_sees_a_prefix_of_the_body.
 
-(* content types not selected (or auto-decode off, or the Accept-Encoding response-header quirk):
+(* content types not selected (or auto-decode off, or a body still content-encoded):
    the body object is left in place, every read is the network's own read *)
 Theorem C15_unselected_untouched :
-  forall (enc : Type) (dec_all : enc -> bytes -> bytes) (dec_stream : enc -> list bytes -> bytes)
+  forall (enc : Type) (dec_all : enc -> bytes -> bytes) (dec_stream dec_partial : enc -> list bytes -> bytes)
          (find_encoding : bytes -> option enc) (parse_ct : bytes -> ct_parse)
          (lookup_charset : bytes -> option enc),
     decoder_ok dec_all dec_stream ->
-    forall disable sel resp_ae ct chunks eof_last takes,
-      should_decode disable sel resp_ae ct = false ->
-      open_body dec_stream (decide parse_ct lookup_charset disable sel resp_ae ct) chunks eof_last takes
-        = BRaw (fresh_net chunks eof_last) /\
+    forall disable sel resp_ce ct chunks eof_last fail takes,
+      should_decode disable sel resp_ce ct = false ->
+      open_body dec_stream dec_partial (decide parse_ct lookup_charset disable sel resp_ce ct) chunks eof_last fail takes
+        = BRaw (fresh_net chunks eof_last fail) /\
       forall sizes o,
-        respond dec_stream find_encoding parse_ct lookup_charset
-                disable sel resp_ae ct chunks eof_last takes sizes = (o, true) ->
+        respond dec_stream dec_partial find_encoding parse_ct lookup_charset
+                disable sel resp_ce ct chunks eof_last fail takes sizes = (o, EEOF) ->
         o = concat chunks.
 Proof. exact unselected_untouched. Qed.
 Print Assumptions C15_unselected_untouched.
 
+(* a body that is STILL content-encoded when it reaches the charset stage (Content-Encoding left on the
+   response: unsupported coding, decompression off) counts as not selected: untouched *)
+Theorem C15_still_encoded_untouched :
+  forall (enc : Type) (dec_all : enc -> bytes -> bytes) (dec_stream dec_partial : enc -> list bytes -> bytes)
+         (find_encoding : bytes -> option enc) (parse_ct : bytes -> ct_parse)
+         (lookup_charset : bytes -> option enc),
+    decoder_ok dec_all dec_stream ->
+    forall disable sel resp_ce ct chunks eof_last fail takes,
+      resp_ce <> [] ->
+      open_body dec_stream dec_partial (decide parse_ct lookup_charset disable sel resp_ce ct) chunks eof_last fail takes
+        = BRaw (fresh_net chunks eof_last fail) /\
+      forall sizes o,
+        respond dec_stream dec_partial find_encoding parse_ct lookup_charset
+                disable sel resp_ce ct chunks eof_last fail takes sizes = (o, EEOF) ->
+        o = concat chunks.
+Proof. exact still_encoded_untouched. Qed.
+Print Assumptions C15_still_encoded_untouched.
+
 Theorem C15_should_decode_iff :
-  forall disable sel resp_ae ct,
-    should_decode disable sel resp_ae ct = true <->
-    disable = false /\ resp_ae = [] /\ selected sel ct = true.
+  forall disable sel resp_ce ct,
+    should_decode disable sel resp_ce ct = true <->
+    disable = false /\ resp_ce = [] /\ selected sel ct = true.
 Proof. exact should_decode_iff. Qed.
 Print Assumptions C15_should_decode_iff.
 
@@ -131,17 +149,17 @@ Print Assumptions C15_should_decode_iff.
    decoder_ok, the HTML prescan finds nothing in <= 2 bytes, and what htmlcharset.Lookup answers for
    the table's labels).  UTF-8 BOM: never transcoded, however the body is split and read ... *)
 Theorem C15_bom_utf8_never_transcoded :
-  forall (enc : Type) (dec_all : enc -> bytes -> bytes) (dec_stream : enc -> list bytes -> bytes)
+  forall (enc : Type) (dec_all : enc -> bytes -> bytes) (dec_stream dec_partial : enc -> list bytes -> bytes)
          (parse_ct : bytes -> ct_parse) (lookup_charset : bytes -> option enc)
          (lookup_name prescan : bytes -> option (enc * bytes)),
     decoder_ok dec_all dec_stream ->
     (forall b, length b <= 2 -> prescan b = None) ->
-    forall disable sel resp_ae ct chunks eof_last takes sizes o rest0 e8 n8,
+    forall disable sel resp_ce ct chunks eof_last fail takes sizes o rest0 e8 n8,
       lookup_name (bs "utf-8") = Some (e8, n8) -> is_utf8_name n8 = true ->
-      decide parse_ct lookup_charset disable sel resp_ae ct = ISniff ->
+      decide parse_ct lookup_charset disable sel resp_ce ct = ISniff ->
       concat chunks = [xef; xbb; xbf] ++ rest0 ->
-      respond dec_stream (find_encoding_m lookup_name prescan) parse_ct lookup_charset
-              disable sel resp_ae ct chunks eof_last takes sizes = (o, true) ->
+      respond dec_stream dec_partial (find_encoding_m lookup_name prescan) parse_ct lookup_charset
+              disable sel resp_ce ct chunks eof_last fail takes sizes = (o, EEOF) ->
       o = concat chunks.
 Proof. exact bom_utf8_never_transcoded. Qed.
 Print Assumptions C15_bom_utf8_never_transcoded.
@@ -149,19 +167,19 @@ Print Assumptions C15_bom_utf8_never_transcoded.
 (* ... UTF-16 BOM: transcoded from that UTF-16 flavour when the first non-empty read holds the two
    bytes of the mark, left alone when it holds only one; no third outcome *)
 Theorem C15_bom_utf16_decided_by_first_read :
-  forall (enc : Type) (dec_all : enc -> bytes -> bytes) (dec_stream : enc -> list bytes -> bytes)
+  forall (enc : Type) (dec_all : enc -> bytes -> bytes) (dec_stream dec_partial : enc -> list bytes -> bytes)
          (parse_ct : bytes -> ct_parse) (lookup_charset : bytes -> option enc)
          (lookup_name prescan : bytes -> option (enc * bytes)),
     decoder_ok dec_all dec_stream ->
     (forall b, length b <= 2 -> prescan b = None) ->
-    forall disable sel resp_ae ct chunks eof_last takes sizes o mark label rest0 e n b,
+    forall disable sel resp_ce ct chunks eof_last fail takes sizes o mark label rest0 e n b,
       In (mark, label) [([xff; xfe], bs "utf-16le"); ([xfe; xff], bs "utf-16be")] ->
       lookup_name label = Some (e, n) -> is_utf8_name n = false ->
-      decide parse_ct lookup_charset disable sel resp_ae ct = ISniff ->
+      decide parse_ct lookup_charset disable sel resp_ce ct = ISniff ->
       concat chunks = mark ++ rest0 ->
-      first_read sizes (fresh_net chunks eof_last) = Some b ->
-      respond dec_stream (find_encoding_m lookup_name prescan) parse_ct lookup_charset
-              disable sel resp_ae ct chunks eof_last takes sizes = (o, true) ->
+      first_read sizes (fresh_net chunks eof_last fail) = Some b ->
+      respond dec_stream dec_partial (find_encoding_m lookup_name prescan) parse_ct lookup_charset
+              disable sel resp_ce ct chunks eof_last fail takes sizes = (o, EEOF) ->
       (2 <= length b -> o = dec_all e (concat chunks)) /\ (length b = 1 -> o = concat chunks).
 Proof. exact bom_utf16_decided_by_first_read. Qed.
 Print Assumptions C15_bom_utf16_decided_by_first_read.
@@ -181,92 +199,185 @@ Print Assumptions C15_utf8_label.
 
 (* caller buffer sizes do not matter beyond the size of the very first non-empty read *)
 Theorem C15_read_size_independent :
-  forall (enc : Type) (dec_all : enc -> bytes -> bytes) (dec_stream : enc -> list bytes -> bytes)
+  forall (enc : Type) (dec_all : enc -> bytes -> bytes) (dec_stream dec_partial : enc -> list bytes -> bytes)
          (find_encoding : bytes -> option enc) (parse_ct : bytes -> ct_parse)
          (lookup_charset : bytes -> option enc),
     decoder_ok dec_all dec_stream ->
-    forall disable sel resp_ae ct chunks eof_last takes1 sizes1 o1 takes2 sizes2 o2,
-      respond dec_stream find_encoding parse_ct lookup_charset
-              disable sel resp_ae ct chunks eof_last takes1 sizes1 = (o1, true) ->
-      respond dec_stream find_encoding parse_ct lookup_charset
-              disable sel resp_ae ct chunks eof_last takes2 sizes2 = (o2, true) ->
-      (decide parse_ct lookup_charset disable sel resp_ae ct <> ISniff \/
-       first_read sizes1 (fresh_net chunks eof_last) = first_read sizes2 (fresh_net chunks eof_last)) ->
+    forall disable sel resp_ce ct chunks eof_last fail takes1 sizes1 o1 takes2 sizes2 o2,
+      respond dec_stream dec_partial find_encoding parse_ct lookup_charset
+              disable sel resp_ce ct chunks eof_last fail takes1 sizes1 = (o1, EEOF) ->
+      respond dec_stream dec_partial find_encoding parse_ct lookup_charset
+              disable sel resp_ce ct chunks eof_last fail takes2 sizes2 = (o2, EEOF) ->
+      (decide parse_ct lookup_charset disable sel resp_ce ct <> ISniff \/
+       first_read sizes1 (fresh_net chunks eof_last fail) = first_read sizes2 (fresh_net chunks eof_last fail)) ->
       o1 = o2.
 Proof. exact read_size_independent. Qed.
 Print Assumptions C15_read_size_independent.
 
 Theorem C15_read_size_independent_first_chunk :
-  forall (enc : Type) (dec_all : enc -> bytes -> bytes) (dec_stream : enc -> list bytes -> bytes)
+  forall (enc : Type) (dec_all : enc -> bytes -> bytes) (dec_stream dec_partial : enc -> list bytes -> bytes)
          (find_encoding : bytes -> option enc) (parse_ct : bytes -> ct_parse)
          (lookup_charset : bytes -> option enc),
     decoder_ok dec_all dec_stream ->
-    forall disable sel resp_ae ct c rest eof_last takes1 k1 r1 o1 takes2 k2 r2 o2,
+    forall disable sel resp_ce ct c rest eof_last fail takes1 k1 r1 o1 takes2 k2 r2 o2,
       c <> [] -> length c <= k1 -> length c <= k2 ->
-      respond dec_stream find_encoding parse_ct lookup_charset
-              disable sel resp_ae ct (c :: rest) eof_last takes1 (k1 :: r1) = (o1, true) ->
-      respond dec_stream find_encoding parse_ct lookup_charset
-              disable sel resp_ae ct (c :: rest) eof_last takes2 (k2 :: r2) = (o2, true) ->
+      respond dec_stream dec_partial find_encoding parse_ct lookup_charset
+              disable sel resp_ce ct (c :: rest) eof_last fail takes1 (k1 :: r1) = (o1, EEOF) ->
+      respond dec_stream dec_partial find_encoding parse_ct lookup_charset
+              disable sel resp_ce ct (c :: rest) eof_last fail takes2 (k2 :: r2) = (o2, EEOF) ->
       o1 = o2.
 Proof. exact read_size_independent_first_chunk. Qed.
 Print Assumptions C15_read_size_independent_first_chunk.
 
-(* the premise "reached io.EOF" is always met: every body is delivered completely within a bounded
-   number of reads, whatever the split, the (positive) buffer sizes and the reader's schedule *)
+(* the premise "reached io.EOF" is always met (on a network that does not fail): every reading ends -
+   with io.EOF or the network's error - within a bounded number of reads, whatever the split, the (positive) buffer sizes and the reader's schedule *)
 Theorem C15_terminates :
-  forall (enc : Type) (dec_all : enc -> bytes -> bytes) (dec_stream : enc -> list bytes -> bytes)
+  forall (enc : Type) (dec_all : enc -> bytes -> bytes) (dec_stream dec_partial : enc -> list bytes -> bytes)
          (find_encoding : bytes -> option enc) (parse_ct : bytes -> ct_parse)
          (lookup_charset : bytes -> option enc),
-    decoder_ok dec_all dec_stream ->
-    forall disable sel resp_ae ct chunks eof_last takes sizes N,
+    forall disable sel resp_ce ct chunks eof_last fail takes sizes N,
       Forall (fun k => 1 <= k) sizes ->
-      (forall e, length (dec_all e (concat chunks)) <= N) ->
+      (forall en cs, concat cs = concat chunks -> length (stream_out dec_stream dec_partial en cs fail) <= N) ->
       length chunks + length (concat chunks) + N + 1 < length sizes ->
-      snd (respond dec_stream find_encoding parse_ct lookup_charset
-                   disable sel resp_ae ct chunks eof_last takes sizes) = true.
+      snd (respond dec_stream dec_partial find_encoding parse_ct lookup_charset
+                   disable sel resp_ce ct chunks eof_last fail takes sizes) <> ENone.
 Proof. exact terminates. Qed.
 Print Assumptions C15_terminates.
 
 (* peek is never set by the repaired peekRead: peekDrain is unreachable, nothing is carried over
    outside the streaming decoder *)
 Theorem C15_peek_never_set :
-  forall (enc : Type) (dec_stream : enc -> list bytes -> bytes) (find_encoding : bytes -> option enc)
+  forall (enc : Type) (dec_stream dec_partial : enc -> list bytes -> bytes) (find_encoding : bytes -> option enc)
          sizes b,
-    peek_clear b -> Forall (fun x => peek_clear (snd x)) (run dec_stream find_encoding sizes b).
+    peek_clear b -> Forall (fun x => peek_clear (snd x)) (run dec_stream dec_partial find_encoding sizes b).
 Proof. exact peek_never_set. Qed.
 Print Assumptions C15_peek_never_set.
 
 (* the per-call trace evaluated by Model/C15Run.v and the delivered body the theorems speak about
    are the same computation *)
 Theorem C15_read_all_is_the_trace :
-  forall (enc : Type) (dec_stream : enc -> list bytes -> bytes) (find_encoding : bytes -> option enc)
+  forall (enc : Type) (dec_stream dec_partial : enc -> list bytes -> bytes) (find_encoding : bytes -> option enc)
          sizes b,
-    read_all dec_stream find_encoding sizes b =
-      (concat (map (fun x => fst (fst x)) (run dec_stream find_encoding sizes b)),
-       match last (map (fun x => snd (fst x)) (run dec_stream find_encoding sizes b)) ENone with
-       | EEOF => true | ENone => false end).
+    read_all dec_stream dec_partial find_encoding sizes b =
+      (concat (map (fun x => fst (fst x)) (run dec_stream dec_partial find_encoding sizes b)),
+       last (map (fun x => snd (fst x)) (run dec_stream dec_partial find_encoding sizes b)) ENone).
 Proof. exact read_all_run. Qed.
 Print Assumptions C15_read_all_is_the_trace.
+
+(* A network error in mid-body always reaches the caller (never a clean io.EOF) ... *)
+Theorem C15_net_error_surfaces :
+  forall (enc : Type) (dec_stream dec_partial : enc -> list bytes -> bytes)
+         (find_encoding : bytes -> option enc) (parse_ct : bytes -> ct_parse)
+         (lookup_charset : bytes -> option enc),
+    forall disable sel resp_ce ct chunks eof_last takes sizes o e,
+      respond dec_stream dec_partial find_encoding parse_ct lookup_charset
+              disable sel resp_ce ct chunks eof_last true takes sizes = (o, e) -> e <> EEOF.
+Proof. exact net_error_surfaces. Qed.
+Print Assumptions C15_net_error_surfaces.
+
+(* ... and the bytes delivered before it are a prefix of one of the two permitted bodies of the COMPLETE
+   response, whatever would have followed (hypothesis: what a transform.Reader delivers before
+   surfacing a source error is a prefix of the transcoding of any completion of its input) *)
+Theorem C15_net_error_prefix :
+  forall (enc : Type) (dec_all : enc -> bytes -> bytes) (dec_stream dec_partial : enc -> list bytes -> bytes)
+         (find_encoding : bytes -> option enc) (parse_ct : bytes -> ct_parse)
+         (lookup_charset : bytes -> option enc),
+    forall disable sel resp_ce ct chunks eof_last takes sizes o,
+      (forall e cs rest, exists tail, dec_all e (concat cs ++ rest) = dec_partial e cs ++ tail) ->
+      respond dec_stream dec_partial find_encoding parse_ct lookup_charset
+              disable sel resp_ce ct chunks eof_last true takes sizes = (o, EFail) ->
+      forall rest,
+        (exists tail, concat chunks ++ rest = o ++ tail) \/
+        (exists en tail, dec_all en (concat chunks ++ rest) = o ++ tail).
+Proof. exact net_error_prefix. Qed.
+Print Assumptions C15_net_error_prefix.
+
+(* every way a reading can end *)
+Theorem C15_respond_outcome :
+  forall (enc : Type) (dec_stream dec_partial : enc -> list bytes -> bytes)
+         (find_encoding : bytes -> option enc) (parse_ct : bytes -> ct_parse)
+         (lookup_charset : bytes -> option enc),
+    forall disable sel resp_ce ct chunks eof_last fail takes sizes o e,
+      respond dec_stream dec_partial find_encoding parse_ct lookup_charset
+              disable sel resp_ce ct chunks eof_last fail takes sizes = (o, e) -> e <> ENone ->
+      e = (if fail then EFail else EEOF) /\
+      match decide parse_ct lookup_charset disable sel resp_ce ct with
+      | IRaw => o = concat chunks
+      | IHeader en => o = stream_out dec_stream dec_partial en chunks fail
+      | ISniff => sniff_out dec_stream dec_partial (sniffed find_encoding sizes (fresh_net chunks eof_last fail))
+                            (fresh_net chunks eof_last fail) o
+      end.
+Proof. exact respond_outcome. Qed.
+Print Assumptions C15_respond_outcome.
+
+(* Several responses alive at the same time, read in ANY interleaving (each has its own decoder object,
+   no decoder state - e.g. the shift state of iso-2022-jp - is shared): every reader delivers, call for
+   call, what it delivers when read alone with its own sub-sequence of buffer sizes *)
+Theorem C15_interleaving_independent :
+  forall (enc : Type) (dec_stream dec_partial : enc -> list bytes -> bytes) (find_encoding : bytes -> option enc)
+         (sched : list (nat * nat)) (f : nat -> breader) (i : nat),
+    trace_of i (run_many dec_stream dec_partial find_encoding sched f) =
+    steps dec_stream dec_partial find_encoding (sizes_of i sched) (f i).
+Proof. exact interleaving_independent. Qed.
+Print Assumptions C15_interleaving_independent.
+
+Theorem C15_interleaved_reader_is_the_single_reader :
+  forall (enc : Type) (dec_stream dec_partial : enc -> list bytes -> bytes) (find_encoding : bytes -> option enc)
+         (sched : list (nat * nat)) (f : nat -> breader) (i : nat),
+    until_eof (trace_of i (run_many dec_stream dec_partial find_encoding sched f)) =
+    map (fun x => (fst (fst x), snd (fst x))) (run dec_stream dec_partial find_encoding (sizes_of i sched) (f i)).
+Proof. exact interleaved_reader_is_the_single_reader. Qed.
+Print Assumptions C15_interleaved_reader_is_the_single_reader.
 
 (* The pinned (pre-fix) peekRead violates two_results_only in three ways; witnesses kept checked
    (toy two-byte charset so that they are closed and computable). *)
 Theorem C15_two_results_only_pinned_refuted :
-  exists (enc : Type) (dec_all : enc -> bytes -> bytes) (dec_stream : enc -> list bytes -> bytes)
+  exists (enc : Type) (dec_all : enc -> bytes -> bytes) (dec_stream dec_partial : enc -> list bytes -> bytes)
          (find_encoding : bytes -> option enc),
     decoder_ok dec_all dec_stream /\
     (exists chunks bufs o,
-        read_all_pinned dec_all dec_stream find_encoding bufs (fresh_adrc chunks false []) = (o, true) /\
+        read_all_pinned dec_all dec_stream dec_partial find_encoding bufs (fresh_adrc chunks false false []) = (o, EEOF) /\
         o <> concat chunks /\ (forall e, o <> dec_all e (concat chunks)) /\
         exists e, o = dec_all e (concat chunks) ++ [x00; x00; x00]) /\
     (exists chunks bufs o,
-        read_all_pinned dec_all dec_stream find_encoding bufs (fresh_adrc chunks false []) = (o, true) /\
+        read_all_pinned dec_all dec_stream dec_partial find_encoding bufs (fresh_adrc chunks false false []) = (o, EEOF) /\
         o <> concat chunks /\ (forall e, o <> dec_all e (concat chunks))) /\
     (exists chunks bufs o,
-        read_all_pinned dec_all dec_stream find_encoding bufs (fresh_adrc chunks false []) = (o, true) /\
+        read_all_pinned dec_all dec_stream dec_partial find_encoding bufs (fresh_adrc chunks false false []) = (o, EEOF) /\
         (forall b, find_encoding b <> None -> forall rest, concat chunks <> b ++ rest) /\
         o <> concat chunks /\ (forall e, o <> dec_all e (concat chunks))).
 Proof. exact two_results_only_pinned_refuted. Qed.
 Print Assumptions C15_two_results_only_pinned_refuted.
+
+(* The pinned guard looked at the RESPONSE header Accept-Encoding instead of Content-Encoding: (a) a
+   response carrying Accept-Encoding (RFC 9110 12.5.3) kept its declared charset unapplied, (b) a body
+   still content-encoded was transcoded.  Witnesses kept checked (toy charset). *)
+Theorem C15_guard_pinned_refuted :
+  exists (enc : Type) (dec_all : enc -> bytes -> bytes) (dec_stream dec_partial : enc -> list bytes -> bytes)
+         (find_encoding : bytes -> option enc) (parse_ct : bytes -> ct_parse)
+         (lookup_charset : bytes -> option enc),
+    decoder_ok dec_all dec_stream /\
+    exists ct v e chunks sizes,
+      parse_ct ct = PCharset v /\ is_utf8_label (to_lower v) = false /\ lookup_charset (to_lower v) = Some e /\
+      selected SelDefault ct = true /\
+      (exists resp_ae o,
+          resp_ae <> [] /\
+          respond dec_stream dec_partial find_encoding parse_ct lookup_charset false SelDefault [] ct chunks false false [] sizes
+            = (dec_all e (concat chunks), EEOF) /\
+          read_all dec_stream dec_partial find_encoding sizes
+            (open_body dec_stream dec_partial (decide_pinned parse_ct lookup_charset false SelDefault resp_ae ct) chunks false false [])
+            = (o, EEOF) /\
+          o = concat chunks /\ o <> dec_all e (concat chunks)) /\
+      (exists resp_ce o,
+          resp_ce <> [] /\
+          respond dec_stream dec_partial find_encoding parse_ct lookup_charset false SelDefault resp_ce ct chunks false false [] sizes
+            = (concat chunks, EEOF) /\
+          read_all dec_stream dec_partial find_encoding sizes
+            (open_body dec_stream dec_partial (decide_pinned parse_ct lookup_charset false SelDefault [] ct) chunks false false [])
+            = (o, EEOF) /\
+          o <> concat chunks).
+Proof. exact guard_pinned_refuted. Qed.
+Print Assumptions C15_guard_pinned_refuted.
 
 (* the hypothesis decoder_ok is satisfiable by a genuinely stateful streaming decoder (pending lead
    byte carried across chunks, "?" flushed for a truncated character at end of input): for the toy
@@ -276,12 +387,20 @@ Theorem C15_stateful_decoder_meets_the_hypothesis :
 Proof. exact toy_stateful_decoder_ok. Qed.
 Print Assumptions C15_stateful_decoder_meets_the_hypothesis.
 
+(* ... and so is the hypothesis of C15_net_error_prefix (toy decoder: complete characters only before
+   a source error) *)
+Theorem C15_partial_hypothesis_satisfiable :
+  forall (e : unit) cs rest, exists tail,
+    toy_dec_all e (concat cs ++ rest) = toy_dec_partial e cs ++ tail.
+Proof. exact toy_partial_ok. Qed.
+Print Assumptions C15_partial_hypothesis_satisfiable.
+
 (* non-vacuity: a concrete decoder satisfies decoder_ok, and on concrete bodies the repaired machine
    reaches io.EOF with each of the two results (declared -> transcoded, also when the first read cuts
    a two-byte character; undeclared -> original), where the pinned machine produced a third one *)
 Example C15_nonvacuous :
   decoder_ok toy_dec_all toy_dec_stream /\
-  repaired_run w1_chunks [8; 8; 8] = (bs "<m>ab", true) /\
-  repaired_run w2_chunks [4; 4; 4] = (bs "<m>Wz", true) /\
-  repaired_run w3_chunks [8; 8; 8] = ("a"%byte :: [xe4; xb8], true).
+  repaired_run w1_chunks [8; 8; 8] = (bs "<m>ab", EEOF) /\
+  repaired_run w2_chunks [4; 4; 4] = (bs "<m>Wz", EEOF) /\
+  repaired_run w3_chunks [8; 8; 8] = ("a"%byte :: [xe4; xb8], EEOF).
 Proof. split; [exact toy_decoder_ok | exact repaired_w123]. Qed.
